@@ -1273,3 +1273,19 @@ mod tests {
         assert_eq!(parser.dump(), "\u{9b}0;1;0;38:2:1:2:3;0");
     }
 }
+
+#[cfg(feature = "verif")]
+impl Parser {
+    pub fn verif_state(&self) -> crate::verif::ParserState {
+        crate::verif::ParserState {
+            state: self.state,
+            params: self
+                .params
+                .iter()
+                .map(|p| (p.cur_part, p.parts.to_vec()))
+                .collect(),
+            cur_param: self.cur_param,
+            intermediate: self.intermediate,
+        }
+    }
+}
